@@ -927,7 +927,7 @@ def count_clauses(lines):
     return res
 
 
-def generate(repo, template, mode=None, isolate=False):
+def generate(repo, template, mode=None, isolate=False, stub=None):
     """mode: None (verify) or 'canaryN'.
     isolate: a function whose extraction loses an anchor is LEFT OUT (recorded in `skipped`, with the labels of its clauses) instead of failing the whole unit: if
     nothing else in the unit calls it the rest is verified as usual and only that function's obligations are undecided; if something does, the unit does not compile
@@ -1085,6 +1085,19 @@ def generate(repo, template, mode=None, isolate=False):
                 for ln, tl in lines_:
                     labs += re.findall(r'\[(C\d\d\.[^\]]+)\]', ln)
             skipped.append(dict(name=blk.kv.get('as') or blk.kv.get('name'), labels=sorted(set(labs)), reason=str(e), tline=blk.tline))
+            continue
+        if stub and r['name'] in stub:
+            # fallback of the driver: the BODY of this function does not compile after extraction (a construct outside the rewrite rules); its signature and contract are kept as an
+            # ASSUMED stand-in so that the other functions of the unit can still be checked (a failure there is a failed obligation of code that WAS extracted); the function itself stays undecided
+            em.emit_lines([('#[verifier::external_body]', dict(kind='tmpl', tline=blk.tline))])
+            for a in blk.attrs:
+                if 'external_body' not in a:
+                    em.emit_lines([(a, dict(kind='tmpl', tline=blk.tline))])
+            em.emit_lines([(r['sig'], dict(kind='sig', fn=r['name'], file=r['file'], line=r['line']))])
+            for ln, tl in blk.spec:
+                em.emit_lines([(ln, dict(kind='tmpl', tline=tl))])
+            em.emit_lines([('{ unimplemented!() }', dict(kind='tmpl', tline=blk.tline))])
+            skipped.append(dict(name=r['name'], labels=sorted(set(l for ln, tl in blk.spec for l in re.findall(r'\[(C\d\d\.[^\]]+)\]', ln))), reason='body does not compile after extraction (stubbed)', tline=blk.tline, stubbed=True))
             continue
         for a in blk.attrs:
             em.emit_lines([(a, dict(kind='tmpl', tline=blk.tline))])
